@@ -290,10 +290,7 @@ theorem exec_abs (u : List Nat) (fuel : Nat) : ∀ (c : Core) (sp : List Pc) (k 
       split
       · rename_i w _
         have hc := closeConn_abs u c w fl
-        split
-        · have := ih (closeConn c w) sp (.discTail (some w) r) fl h
-          exact ⟨this.1.trans hc.1, hc.2.2.trans this.2.1, this.2.2⟩
-        · exact ⟨hc.1, hc.2.2, h⟩
+        exact ⟨hc.1, hc.2.2, h⟩
       · exact ih _ _ _ _ h
     | discTail w r =>
       simp only [exec]
